@@ -393,11 +393,21 @@ def run(ctx: Context) -> None:
             cn, cinner, cowner = coord
             key_c = flow.canon(cowner.slice) if isinstance(cowner, ast.Subscript) else None
             stores = []
+
+            def same_key(e) -> bool:
+                # the name the working variable was fetched under, or that variable's own `.name` (dataset[k].name is k)
+                if flow.canon(e) == key_c:
+                    return True
+                r = flow.resolve(e)
+                if isinstance(r, ast.Attribute) and r.attr == 'name':
+                    owner = flow.resolve(r.value)
+                    return isinstance(owner, ast.Subscript) and flow.canon(owner.slice) == key_c
+                return False
             for c in calls_in(fi):
                 if not (isinstance(c.func, ast.Attribute) and c.func.attr in ('assign', 'assign_coords') and c.args):
                     continue
                 d = flow.resolve(c.args[0])
-                if not (isinstance(d, ast.Dict) and len(d.keys) == 1 and d.keys[0] is not None and flow.canon(d.keys[0]) == key_c):
+                if not (isinstance(d, ast.Dict) and len(d.keys) == 1 and d.keys[0] is not None and same_key(d.keys[0])):
                     continue
                 stores.append((c, d))
             ok_s = len(stores) == 2 and {c.func.attr for c, _ in stores} == {'assign', 'assign_coords'}
@@ -407,7 +417,7 @@ def run(ctx: Context) -> None:
                 v = flow.resolve(d.values[0])
                 conds = positive_conditions(fi, c)
                 isdim = [pol for t, pol in conds if isinstance(t, ast.Compare) and len(t.ops) == 1 and isinstance(t.ops[0], ast.Eq)
-                         and key_c in (flow.canon(t.left), flow.canon(t.comparators[0]))
+                         and (same_key(t.left) or same_key(t.comparators[0]))
                          and any(isinstance(x, tuple) and x[0] == 'sub' and isinstance(x[1], tuple) and x[1][0] == 'attr' and x[1][2] == 'dims'
                                  for x in (flow.canon(t.left), flow.canon(t.comparators[0])))]
                 detail.append(f"{c.func.attr} when name == dimension is {isdim}")
@@ -423,7 +433,7 @@ def run(ctx: Context) -> None:
                       stores[0][0] if stores else cn, construct=f"stores: {detail}")
             carry = [n for n in walk_no_nested(fi.node) if isinstance(n, ast.Assign) and isinstance(n.targets[0], ast.Attribute)
                      and n.targets[0].attr in ('attrs', 'encoding') and isinstance(flow.resolve(n.targets[0].value), ast.Subscript)
-                     and flow.canon(flow.resolve(n.targets[0].value).slice) == key_c and kind(n.targets[0].value) == 'copy'
+                     and same_key(flow.resolve(n.targets[0].value).slice) and kind(n.targets[0].value) == 'copy'
                      and isinstance(flow.resolve(n.value), ast.Attribute) and flow.resolve(n.value).attr == n.targets[0].attr and flow.canon(flow.resolve(n.value).value) == vc]
             ctx.check('R13.3', {n.targets[0].attr for n in carry} == {'attrs', 'encoding'}, "a flipped dimension coordinate keeps its attrs and encoding", fi,
                       carry[0] if carry else cn, construct=f"carried: {sorted(n.targets[0].attr for n in carry)}")
